@@ -42,6 +42,7 @@ type Engine struct {
 	typeTags map[string]int
 	tagTypes []types.Type
 	strConsts map[string]*smt.Term
+	externFromPkg map[string]bool // extern contract came from a package's own contract file
 	loopCache map[*ssa.Function]*loopInfo
 	constTabs map[*ssa.Global]*constTable
 	debugNames map[*ssa.Function]map[string][]ssa.Value
@@ -259,7 +260,16 @@ func (e *Engine) addContractFile(path string, p *packages.Package, overlay map[s
 			}
 			e.IfaceC[name] = fc
 		case fc.Extern:
+			// an extern contract written in a package's own contract file takes precedence over the
+			// generic one of the library file (whichever is loaded first)
+			if old, ok := e.Externs[fc.Name]; ok && p == nil && old != nil && e.externFromPkg[fc.Name] {
+				break
+			}
 			e.Externs[fc.Name] = fc
+			if e.externFromPkg == nil {
+				e.externFromPkg = map[string]bool{}
+			}
+			e.externFromPkg[fc.Name] = p != nil
 		default:
 			if p == nil {
 				return fmt.Errorf("%s:%d: func contract outside a package file", fc.File, fc.Line)
